@@ -9,6 +9,21 @@ import sys
 import tempfile
 import time
 
+import threading
+
+_default_thread_hook = threading.excepthook
+
+
+def _thread_hook(args):
+    # the pool worker thread that run_timeout interrupts dies with CPython's SystemError for the injected exception
+    # instance; that is the limiter working as designed, not something to print thousands of times
+    if args.exc_type is SystemError and 'KeyboardInterrupt' in str(args.exc_value):
+        return
+    _default_thread_hook(args)
+
+
+threading.excepthook = _thread_hook
+
 VERIF = os.path.dirname(os.path.dirname(os.path.abspath(__file__)))
 REPO = os.environ.get('VERIF_REPO', '/repo')
 CACHE = os.path.join(VERIF, '.cache')
